@@ -215,7 +215,7 @@ func compareOutcome(res ech.ResolveResult, err error, want dnsfx.RefOutcome) str
 func TestC14(t *testing.T) {
 	rec := ev.Get("C14")
 	rec.Rule("random zones served by a loopback DoH server that answers like a recursive resolver (CNAME chain first, packets built with dnsmessage): host with A/AAAA (directly or through CNAME chains), at the RFC 9460 query name either nothing, NXDOMAIN, a service RRset (1..4 records, equal/distinct priorities, targets with/without addresses, ports, ALPN, ECH markers), or an alias chain of 0..8 links (loops, self alias, alias to '.', alias to a name with only addresses) optionally behind a CNAME; forced RCODEs 1..5 and 6..23 and HTTP 4xx on single (name,type) pairs; poison records (HTTPS with attacker ECH, A, AAAA, CNAME) owned by an unrelated name in every answer. Name forms: host, host:port (0/80/443/other), scheme://host[:port][/path] (http/https/other, mixed case), IP literals, localhost, over-long hosts, labels, schemes and constructed names. Oracle: reference resolver over the zone (RFC 9460 2.3/2.4.2/3), poison markers absent, query log (types, RFC-conformant names from the allowed set, count bound). distinct = (zone shape, name form); non-trivial = zone has HTTPS records or a CNAME for the queried name")
-	rec.Mandatory("longest_valid_host", "alias_loop", "alias_chain_gt_limit", "poison", "rcode:1", "rcode:2", "rcode:3", "rcode:4", "rcode:5", "port_non443_other_scheme", "overlong_scheme", "overlong_constructed", "overlong_host", "ip_literal", "service_with_targets", "cname_to_https", "nxdomain_https", "service_targets_origin_host", "host_with_trailing_dot")
+	rec.Mandatory("longest_valid_host", "alias_loop", "alias_chain_gt_limit", "poison", "rcode:1", "rcode:2", "rcode:3", "rcode:4", "rcode:5", "port_non443_other_scheme", "overlong_scheme", "overlong_constructed", "overlong_host", "ip_literal", "service_with_targets", "cname_to_https", "nxdomain_https", "service_targets_origin_host", "host_with_trailing_dot", "repeated_on_caching_resolver")
 	rapid.Check(t, func(t *rapid.T) {
 		var cl []string
 		host := "svc.example"
@@ -391,17 +391,41 @@ func TestC14(t *testing.T) {
 		var res ech.ResolveResult
 		var rerr error
 		var log []dnsfx.Query
+		repeatCached := rapid.IntRange(0, 2).Draw(t, "repeat_with_cache") == 0
+		repeatDiff := ""
+		if repeatCached {
+			cl = append(cl, "repeated_on_caching_resolver")
+		}
 		withZoneServer(z, nil, func(url string, srv *dnsfx.Server) {
 			r, err := ech.NewResolver(url)
 			if err != nil {
 				t.Fatalf("harness: %v", err)
 			}
-			r.SetCacheSize(0)
+			if !repeatCached {
+				r.SetCacheSize(0)
+			}
 			ctx, cancel := context.WithTimeout(context.Background(), 30*time.Second)
 			defer cancel()
 			rerr = guard(func() error { var e error; res, e = r.Resolve(ctx, input); return e })
 			log = srv.TakeLog()
+			if repeatCached {
+				// the zone does not change and no time passes: asking again (answers and
+				// failures now possibly remembered) gives the same outcome every time
+				first := fmt.Sprintf("%+v|%v", res, rerr)
+				for i := 2; i <= 4; i++ {
+					var res2 ech.ResolveResult
+					e2 := guard(func() error { var e error; res2, e = r.Resolve(ctx, input); return e })
+					if again := fmt.Sprintf("%+v|%v", res2, e2); again != first {
+						repeatDiff = fmt.Sprintf("call %d of Resolve(%q) on the same resolver returned %s, the first call returned %s", i, input[:min(len(input), 100)], again, first)
+						break
+					}
+				}
+				srv.TakeLog()
+			}
 		})
+		if repeatDiff != "" {
+			ev.Violation(t, "C14", map[string]any{"input": input, "zone": z.Describe()}, "%s", repeatDiff)
+		}
 		rp := map[string]any{"input": input, "zone": z.Describe(), "expected": fmt.Sprintf("%+v", want)}
 		var ql []string
 		for _, q := range log {
